@@ -9,6 +9,7 @@ package kcp
 import (
 	"fmt"
 	"net"
+	"reflect"
 	"regexp"
 	"runtime"
 	"strings"
@@ -488,14 +489,14 @@ func (w *sessWorld) leakCheck() {
 		lib := ""
 		for i := len(lines) - 1; i >= 1; i-- {
 			ln := strings.TrimSpace(lines[i])
-			if strings.HasPrefix(ln, "/repo/") && !strings.Contains(ln, "zzverif_") {
+			if strings.HasPrefix(ln, libDir()) && !strings.Contains(ln, "zzverif_") {
 				// function name is the previous line
 				if i > 0 {
 					lib = strings.TrimSpace(lines[i-1])
 				}
 				break
 			}
-			if strings.HasPrefix(ln, "/repo/zzverif_") {
+			if strings.HasPrefix(ln, libDir()+"zzverif_") {
 				break // harness goroutine
 			}
 		}
@@ -1009,4 +1010,21 @@ func sndWndFor(sc *sessScenario, c sessCfg) int {
 		return 0
 	}
 	return c.SndWnd
+}
+
+var libDirOnce sync.Once
+var libDirVal string
+
+// libDir is the directory the library was compiled from (normally "/repo/").
+func libDir() string {
+	libDirOnce.Do(func() {
+		f := runtime.FuncForPC(reflect.ValueOf(NewKCP).Pointer())
+		file, _ := f.FileLine(f.Entry())
+		if i := strings.LastIndex(file, "/"); i >= 0 {
+			libDirVal = file[:i+1]
+		} else {
+			libDirVal = "/repo/"
+		}
+	})
+	return libDirVal
 }
